@@ -127,6 +127,7 @@ def mutations(frame: bytes, rnd: random.Random, cmd: dict, n_random: int, full_f
                 out.append(("field", bytes(m)))
                 if cmd["fr"] == "rtu":
                     out.append(("fieldcrc", bytes(m[:2]) + F.with_crc(bytes(m[2:-2]))))
+    out.extend(resized(frame, rnd, cmd))
     for _ in range(n_random):
         m = bytearray(frame)
         kind = rnd.randrange(4)
@@ -142,6 +143,49 @@ def mutations(frame: bytes, rnd: random.Random, cmd: dict, n_random: int, full_f
             i = rnd.randrange(len(m) + 1)
             m[i:i + rnd.randint(0, 4)] = bytes(rnd.randrange(256) for _ in range(rnd.randint(0, 4)))
         out.append(("rand", bytes(m)))
+    return out
+
+
+def resized(frame: bytes, rnd: random.Random, cmd: dict) -> list[tuple[str, bytes]]:
+    """Answers that announce another size than the request asked for, consistent in every dependent field (byte count,
+    Modbus/TCP length field, CRC / checksum recomputed) - and the half-consistent variants (byte count changed but
+    payload / length field not, and vice versa)."""
+    out = []
+    fr, op = cmd["fr"], cmd["op"]
+    if fr in ("rtu", "tcp") and op == "read":
+        addr, b = cmd["addr"], 2 * cmd["n"]
+        pl = frame[5:5 + b] if fr == "rtu" else frame[9:9 + b]
+        tx = frame[:2]
+        for d in (-3, -2, -1, 1, 2, 3, b):
+            nb = b + d
+            if not 0 <= nb <= 255:
+                continue
+            p2 = (pl + bytes(rnd.randrange(256) for _ in range(max(0, d))))[:nb]
+            for cnt, body in ((nb, p2), (nb, pl), (b, p2), (nb, p2 + b"\x00")):
+                if fr == "rtu":
+                    out.append(("resize", b"\xaa\x55" + F.with_crc(bytes([addr, 3, cnt]) + body)))
+                else:
+                    for ln in (3 + len(body), 3 + b, 3 + cnt):
+                        out.append(("resize", tx + b"\x00\x00" + ln.to_bytes(2, "big") + bytes([addr, 3, cnt]) + body))
+    elif fr in ("rtu", "tcp"):
+        fn = 6 if op == "write" else 16
+        echo = cmd["reg"].to_bytes(2, "big") + (cmd["n"] & 0xFFFF).to_bytes(2, "big")
+        for body in (echo[:3], echo[:2], echo + b"\x00", echo + echo[2:], echo[:2] + echo[3:] + echo[2:3]):
+            if fr == "rtu":
+                out.append(("resize", b"\xaa\x55" + F.with_crc(bytes([cmd["addr"], fn]) + body)))
+            else:
+                for ln in (2 + len(body), 6):
+                    out.append(("resize", frame[:2] + b"\x00\x00" + ln.to_bytes(2, "big") + bytes([cmd["addr"], fn]) + body))
+    else:
+        pl = frame[7:-2]
+        for d in (-2, -1, 1, 2):
+            nb = len(pl) + d
+            if not 0 <= nb <= 255:
+                continue
+            p2 = (pl + bytes(rnd.randrange(256) for _ in range(max(0, d))))[:nb]
+            for cnt, body in ((nb, p2), (nb, pl), (len(pl), p2)):
+                f = frame[:6] + bytes([cnt]) + body
+                out.append(("resize", f + (sum(f) & 0xFFFF).to_bytes(2, "big")))
     return out
 
 
